@@ -3,7 +3,8 @@ import OFCore.Props.C05
 /-!
 # C12 — a described situation becomes exactly that simulation
 
-Theorems about the model `OFCore/Builder.lean` (the REPAIRED builder, fixes C12a … C12f), for all
+Theorems about the model `OFCore/Builder.lean` (the REPAIRED builder, fixes C12a … C12f, C12gh,
+C12i, C12k, C12l), for all
 tax-benefit systems and all documents, of any size.  `Holder.set_input` is a parameter
 (`SetInput`); what is assumed of it is stated where it is used (`SetInputOK`).
 -/
@@ -210,9 +211,9 @@ open Bld in
 (1) the persons listed by its instances are pairwise distinct and declared;
 (2) the `t`-th person listed under role `r` of an instance belongs to that instance's group, with
 the role `r` — or its `t`-th sub-role when `r` has sub-roles;
-(3) a person left out belongs to the group found under the person's own id (the fresh group
-appended for that person when no declared group has that id — see `C12_own_group`), with the
-first role of the kind. -/
+(3) a person left out belongs to the fresh group appended for that person after the declared ones
+(repair C12i: located by position, whatever the ids of the declared groups — see `C12_own_group`),
+with the first role of the kind. -/
 theorem C12_membership_roles (sys : Sys) (dp : Option String) (g : GroupKind) (personsIds : List String)
     (hpn : personsIds.Nodup) (kvs : List (DKey × Doc)) (buf buf' : Buffer) (e : Ent)
     (h : addGroupEntity sys dp g personsIds (.obj kvs) buf = .ok (e, buf')) :
@@ -223,7 +224,7 @@ theorem C12_membership_roles (sys : Sys) (dp : Option String) (g : GroupKind) (p
       e.memb[personsIds.idxOf pid]? = some ((kvs.map (fun kv => kv.1.text)).idxOf gk.text) ∧
       e.roles[personsIds.idxOf pid]? = some (r.roleAt t)) ∧
     (∀ pid ∈ leftOut g personsIds kvs,
-      e.memb[personsIds.idxOf pid]? = some (e.ids.idxOf pid) ∧
+      e.memb[personsIds.idxOf pid]? = some (kvs.length + (leftOut g personsIds kvs).idxOf pid) ∧
       ∃ r0, g.flatRoles.head? = some r0 ∧ e.roles[personsIds.idxOf pid]? = some r0) := by
   obtain ⟨acc, hf, hk, _, _, hids, ⟨own, hown, hm, hr⟩, _⟩ := addGroupEntity_ok h
   obtain ⟨⟨hnd, hmem, hta⟩, hmws, _, _⟩ := groupLoop_ok kvs _ acc hf
@@ -233,7 +234,7 @@ theorem C12_membership_roles (sys : Sys) (dp : Option String) (g : GroupKind) (p
   have hownp : own.map (·.pidx) = (acc.toAlloc).map (fun p => personsIds.idxOf p) := by
     rcases hown with ⟨hl, rfl⟩ | ⟨r0, _, rfl⟩
     · simp [hl]
-    · unfold ownMWrites; rw [List.map_map]; rfl
+    · exact ownMWrites_pidx _ _ _ _
   have hallnd : ((acc.mws ++ own).map (·.pidx)).Nodup := by
     rw [List.map_append, hmws, loopMWrites_pidx, hownp, ← List.map_append]
     apply nodup_map_idxOf
@@ -280,14 +281,14 @@ theorem C12_membership_roles (sys : Sys) (dp : Option String) (g : GroupKind) (p
     have hne : acc.toAlloc ≠ [] := fun e' => by rw [e'] at hpid; cases hpid
     rcases hown with ⟨hl, _⟩ | ⟨r0, hr0, hownr⟩
     · exact absurd hl hne
-    · let w : MWrite := ⟨personsIds.idxOf pid, e.ids.idxOf pid, r0⟩
+    · let w : MWrite := ⟨personsIds.idxOf pid, kvs.length + acc.toAlloc.idxOf pid, r0⟩
       have hw : w ∈ acc.mws ++ own := by
         apply List.mem_append_right
         rw [hownr]
-        exact List.mem_map.mpr ⟨pid, hpid, rfl⟩
+        exact mem_ownMWrites personsIds kvs.length r0 acc.toAlloc pid hpid
       have hpm : pid ∈ personsIds := by rw [hta, List.mem_filter] at hpid; exact hpid.1
       have := applyM_mem personsIds.length (acc.mws ++ own) hallnd w hw (List.idxOf_lt_length_of_mem hpm)
-      rw [hm, hr]
+      rw [hm, hr, ← hleft]
       exact ⟨this.1, r0, hr0, this.2⟩
 end OFCore
 namespace OFCore.Bld
@@ -295,16 +296,14 @@ namespace OFCore.Bld
 end OFCore.Bld
 namespace OFCore
 open Bld in
-/-- **C12_own_group.**  A person left out of a group kind whose id is not the id of a declared group
-of that kind is the only member of a fresh group appended after the declared ones; different
-persons left out get different groups.  (When a declared group has the id of the person, the
-code — and the model — put the person into that declared group: finding F-C12i; see
-`C12_own_group_collision`.) -/
+/-- **C12_own_group.**  A person left out of a group kind is the only member of a fresh group
+appended after the declared ones, which bears the person's id; different persons left out get
+different groups — whatever the ids of the declared groups (repair C12i; before it, a declared
+group named after the person received the person). -/
 theorem C12_own_group (sys : Sys) (dp : Option String) (g : GroupKind) (personsIds : List String)
     (hpn : personsIds.Nodup) (kvs : List (DKey × Doc)) (buf buf' : Buffer) (e : Ent)
     (h : addGroupEntity sys dp g personsIds (.obj kvs) buf = .ok (e, buf'))
-    (pid : String) (hleft : pid ∈ leftOut g personsIds kvs)
-    (hfresh : pid ∉ kvs.map (fun kv => kv.1.text)) :
+    (pid : String) (hleft : pid ∈ leftOut g personsIds kvs) :
     e.memb[personsIds.idxOf pid]? = some (kvs.length + (leftOut g personsIds kvs).idxOf pid) ∧
     kvs.length ≤ kvs.length + (leftOut g personsIds kvs).idxOf pid ∧
     e.ids[kvs.length + (leftOut g personsIds kvs).idxOf pid]? = some pid ∧
@@ -312,11 +311,9 @@ theorem C12_own_group (sys : Sys) (dp : Option String) (g : GroupKind) (personsI
       e.memb[personsIds.idxOf q]? ≠ some (kvs.length + (leftOut g personsIds kvs).idxOf pid)) := by
   obtain ⟨_, hids, _, _, _⟩ := (C12_entities sys dp).2.1 g personsIds kvs buf buf' e h
   obtain ⟨⟨hnd, hlm⟩, hdecl, hown⟩ := C12_membership_roles sys dp g personsIds hpn kvs buf buf' e h
-  have hidx : e.ids.idxOf pid = kvs.length + (leftOut g personsIds kvs).idxOf pid := by
-    rw [hids, List.idxOf_append]; simp [hfresh, Nat.add_comm]
   have hlt : (leftOut g personsIds kvs).idxOf pid < (leftOut g personsIds kvs).length :=
     List.idxOf_lt_length_of_mem hleft
-  refine ⟨by rw [← hidx]; exact (hown pid hleft).1, Nat.le_add_right _ _, ?_, ?_⟩
+  refine ⟨(hown pid hleft).1, Nat.le_add_right _ _, ?_, ?_⟩
   · rw [hids, List.getElem?_append_right (by simp)]
     simp only [List.length_map, Nat.add_sub_cancel_left]
     rw [List.getElem?_eq_getElem hlt, List.getElem_idxOf hlt]
@@ -324,10 +321,9 @@ theorem C12_own_group (sys : Sys) (dp : Option String) (g : GroupKind) (personsI
     by_cases hql : q ∈ leftOut g personsIds kvs
     · have hq' := (hown q hql).1
       rw [hq'] at hcontra
-      have hqi : e.ids.idxOf q = e.ids.idxOf pid := by rw [hidx]; exact Option.some.inj hcontra
-      have hqm : q ∈ e.ids := by rw [hids]; exact List.mem_append_right _ hql
-      have hpm : pid ∈ e.ids := by rw [hids]; exact List.mem_append_right _ hleft
-      exact hne (idxOf_inj_of_mem hqm hpm hqi)
+      have hqi : (leftOut g personsIds kvs).idxOf q = (leftOut g personsIds kvs).idxOf pid := by
+        have := Option.some.inj hcontra; omega
+      exact hne (idxOf_inj_of_mem hql hleft hqi)
     · -- q is listed by some instance: its group index is below the number of declared groups
       have hqlisted : q ∈ listedPersons g kvs := by
         unfold leftOut at hql
@@ -383,7 +379,7 @@ structure SetInputOK (si : SetInput) : Prop where
   fresh : ∀ (s s' : Store) (var : Var) (n : Nat) (p : Period) (a : Vec),
     var.defUnit ≠ .eternity → si s var n p a = .ok s' →
     ∀ (k : String × Period), alGet s k = none → alGet s' k ≠ none →
-    k.1 = var.name ∧ (k.2 = p ∨ periodLe p k.2 = false)
+    k.1 = var.name ∧ (k.2 = p ∨ flushLe p k.2 = false)
 
 /-- the assumption is satisfiable: a `set_input` that accepts one definition period at a time -/
 def plainSetInput : SetInput := fun s var _ p a =>
@@ -411,7 +407,7 @@ example : SetInputOK plainSetInput where
 
 theorem flush_unknown (si : SetInput) (hsi : SetInputOK si) (buf : Buffer) (var : Var)
     (hne : var.defUnit ≠ .eternity) (count : Nat) (q : Period) :
-    ∀ (ps : List Period) (s s' : Store), (∀ q' ∈ ps, q' ≠ q ∧ periodLe q' q = true) →
+    ∀ (ps : List Period) (s s' : Store), (∀ q' ∈ ps, q' ≠ q ∧ flushLe q' q = true) →
     foldE (callStep si buf var count) s ps = .ok s' → alGet s (var.name, q) = none →
     alGet s' (var.name, q) = none
   | [], s, s', _, h, hx => by cases h; exact hx
@@ -459,14 +455,14 @@ end OFCore.Bld
 namespace OFCore
 open Bld in
 /-- **C12_longer_fills_gaps.**  For every buffer and every variable, the periods handed to
-`set_input` are a permutation of the buffered ones, sorted by (unit weight, size): a period is
-never written before a period of a lighter unit, nor before a shorter one of the same unit
-(repair C12b: the key is numeric).  Consequently, under `SetInputOK`, whatever is declared on
-longer periods, the value declared on ONE definition period is what the simulation holds for it:
-a longer period only fills what is still unknown. -/
+`set_input` are a permutation of the buffered ones, sorted by (length in days, unit weight),
+`ETERNITY` last: a period is never written before a shorter one (repairs C12b — numeric key — and
+C12l — the length, not the size in its own unit).  Consequently, under `SetInputOK`, whatever is
+declared on longer periods, the value declared on ONE definition period is what the simulation
+holds for it: a longer period only fills what is still unknown. -/
 theorem C12_longer_fills_gaps (buf : Buffer) (v : String) (ps : List Period)
     (h : sortedPeriods buf v = .ok ps) :
-    ps.Pairwise (fun p q => periodLe p q = true) ∧
+    ps.Pairwise (fun p q => flushLe p q = true) ∧
     (∃ qs, All₂ (fun ck q => parsePeriod ck = .ok q) (varKeys buf v) qs ∧ ps.Perm qs) ∧
     (∀ (si : SetInput), SetInputOK si → ∀ (var : Var) (count : Nat) (s s' : Store),
       var.name = v → var.defUnit ≠ .eternity → ps.Nodup →
@@ -476,21 +472,34 @@ theorem C12_longer_fills_gaps (buf : Buffer) (v : String) (ps : List Period)
       ∀ values, alGet buf (v, q.text) = some values → values.length ≠ 0 →
       (tile (count / values.length) values).length = count →
       alGet s' (v, q) = some (tile (count / values.length) values)) := by
-  obtain ⟨qs, hq, rfl⟩ := sortedPeriods_ok h
-  refine ⟨sortBy_pairwise periodLe periodLe_trans periodLe_total qs, ⟨qs, ?_, sortBy_perm periodLe qs⟩, ?_⟩
+  obtain ⟨qs, kps, hq, hkp, rfl⟩ := sortedPeriods_ok h
+  obtain ⟨hsnd, hkeys⟩ := all₂_keyed (mapE_forall₂ _ _ _ hkp)
+  have hperm := sortBy_perm (fun (a b : (Option Int × Int) × Period) => keyLe a.1 b.1) kps
+  have hsortedk := sortBy_pairwise (fun (a b : (Option Int × Int) × Period) => keyLe a.1 b.1)
+    (fun a b c => keyLe_trans a.1 b.1 c.1) (fun a b => keyLe_total a.1 b.1) kps
+  have hsorted : ((sortBy (fun a b => keyLe a.1 b.1) kps).map (fun kp => kp.2)).Pairwise
+      (fun p q => flushLe p q = true) := by
+    rw [List.pairwise_map]
+    refine List.Pairwise.imp_of_mem ?_ hsortedk
+    intro a b ha hb hab
+    unfold flushLe
+    rw [hkeys a (hperm.mem_iff.mp ha), hkeys b (hperm.mem_iff.mp hb)]
+    exact hab
+  refine ⟨hsorted, ⟨qs, ?_, ?_⟩, ?_⟩
   · have := mapE_forall₂ _ _ _ hq
-    clear hq h
+    clear hq h hkp hsnd hkeys hperm hsortedk hsorted
     generalize varKeys buf v = keys at this
     induction this with
     | nil => exact .nil
     | @cons a b l l' hab _ ih =>
       refine .cons ?_ ih
+      unfold parseBuffered at hab
       cases hp : parsePeriod a with
       | error e => rw [hp] at hab; cases hab
       | ok p => rw [hp] at hab; cases hab; rfl
+  · rw [← hsnd]; exact hperm.map _
   · intro si hsi var count s s' hname hne hnd hfold q hqm hunk hunit hsize values hvals hz hlen
     subst hname
-    have hsorted := sortBy_pairwise periodLe periodLe_trans periodLe_total qs
     obtain ⟨pre, post, hsplit⟩ := List.append_of_mem hqm
     rw [hsplit] at hfold hnd
     -- run up to q, then q itself, then the rest
@@ -995,13 +1004,24 @@ example : (addGroupEntity exSys none exHousehold ["a", "b", "c"] (.obj exHouseho
     (fun r => (r.1.ids, r.1.memb, r.1.roles)) =
     some (["h", "c"], [0, 0, 1], ["second_parent", "first_parent", "first_parent"]) := by decide +kernel
 example : leftOut exHousehold ["a", "b", "c"] exHouseholds = ["c"] := by decide +kernel
--- finding F-C12i: a declared group named after a person left out receives that person
+-- repair C12i: a declared group named after a person left out does not receive that person
 example : (addGroupEntity exSys none exHousehold ["a", "b"] (.obj [(.s "a", .obj [(.s "parents", .arr [.str "b"])])]) []
-    ).toOption.map (fun r => (r.1.ids, r.1.memb)) = some (["a", "a"], [0, 0]) := by decide +kernel
+    ).toOption.map (fun r => (r.1.ids, r.1.memb)) = some (["a", "a"], [1, 0]) := by decide +kernel
 -- C12_longer_fills_gaps: month, three months, year are flushed in that order
 example : (sortedPeriods [(("dv", "2018".toList), [.num 120]), (("dv", "month:2018-01:3".toList), [.num 30]),
     (("dv", "2018-01".toList), [.num 5])] "dv").toOption.map (fun ps => ps.map Period.text) =
     some ["2018-01".toList, "month:2018-01:3".toList, "2018".toList] := by decide +kernel
+-- repair C12l: the year is flushed before the 24 months that contain it
+example : (sortedPeriods [(("dv", "month:2018-01:24".toList), [.num 2400]), (("dv", "2018".toList), [.num 600])] "dv"
+    ).toOption.map (fun ps => ps.map Period.text) = some ["2018".toList, "month:2018-01:24".toList] := by decide +kernel
+-- repair C12gh: the short form keeps `axes` and unknown keys (which `build_from_entities` then refuses)
+example : (explicitSingular exSys [(.s "household", .obj []), (.s "axes", .arr []), (.s "companies", .obj [])]).map (·.1)
+    = [.s "households", .s "axes", .s "companies"] := by decide +kernel
+-- repair C12k: both parallel axes of the perpendicular dimension are kept
+example : (parseAxes (.arr [.arr [.obj [(.s "name", .str "salary"), (.s "count", .int 2), (.s "min", .int 0), (.s "max", .int 1)]],
+    .arr [.obj [(.s "name", .str "rent"), (.s "count", .int 2), (.s "min", .int 0), (.s "max", .int 1)],
+          .obj [(.s "name", .str "salary"), (.s "count", .int 2), (.s "min", .int 5), (.s "max", .int 6)]]])
+    ).toOption.map (fun dims => dims.map List.length) = some [1, 2] := by decide +kernel
 -- C12_spelling_invariant: the two spellings of the same document are related, and both are built
 example : All₂ TopEq [(.s "persons", .obj exPersons)] [(.s "persons", .obj exPersons')] := by
   refine .cons ⟨rfl, Or.inr ⟨_, _, rfl, rfl, ?_⟩⟩ .nil
